@@ -400,6 +400,52 @@ fn judge(case: &Case, run: &Run, ctx: &mut CaseCtx) {
             }
         }
     }
+    // ---- wire: follow-up queries for the instances of a type only while some querying browse of
+    //      that type, or of a subtype / the base type of it, is open (types 0 and 3 share their
+    //      instances' name space)
+    for group in [vec![0usize, 3], vec![1usize]] {
+        let base = Name::from_escaped(TYPES[group[0]]);
+        let mut intervals: Vec<(usize, usize)> = Vec::new();
+        let mut any_stop = false;
+        for c in &run.browse_chans {
+            let ChanKind::Browse { ty: t2, cache_only } = c.kind else { continue };
+            if !group.contains(&t2) || cache_only {
+                continue;
+            }
+            let mut end = usize::MAX;
+            if let Some(s) = c.stopped {
+                end = end.min(s.0);
+                any_stop = true;
+            }
+            if let Some(sp) = run.shutdown_pos {
+                end = end.min(sp);
+            }
+            if let Some(rp) = c.replaced {
+                end = end.min(rp);
+            }
+            intervals.push((c.opened, end));
+        }
+        if !any_stop {
+            continue;
+        }
+        for p in sent.iter().filter(|p| !p.m.is_response()) {
+            for q in &p.m.questions {
+                // '<instance>.<base type>': one label more than the type
+                let is_instance = q.name.0.len() == base.0.len() + 1 && Name(q.name.0[1..].to_vec()).eq_ignore_case(&base);
+                if !is_instance || intervals.iter().any(|(a, b)| p.pos >= *a && p.pos < *b) {
+                    continue;
+                }
+                fail!(
+                    "C13/wire/query-after-stop/instance",
+                    "query for the instance {} left at +{} ms on {} while no browse of {} (or of a subtype of it) was open",
+                    q.name.to_escaped(),
+                    p.t - T0,
+                    p.if_name,
+                    TYPES[group[0]]
+                );
+            }
+        }
+    }
     // ---- wire: queries for a type only while some (non cache-only) browse of it is open
     for ty in 0..TYPES.len() {
         let tyname = Name::from_escaped(TYPES[ty]);
@@ -672,7 +718,7 @@ pub fn run(tier: Tier) -> i32 {
     let mut agg = Agg::new("C13", tier);
     agg.assume("simulation: silent network except scripted responders, exact wake-ups, clients drain their channels; interface check interval set very large");
     agg.assume("a search replaced by a later browse/resolve_hostname of the same key is not required to receive SearchStopped itself; it must receive nothing after the key was stopped");
-    agg.assume("after a stop, queries for *instances* of the stopped type (pending resolves) are not counted as queries for the type");
+    agg.assume("after a stop, queries for the instances of the stopped type are judged too (no browse of the type, its base type or a subtype of it open: no such query), since fix 8b58a4a made stop_browse drop the pending follow-ups");
     run_regressions::<Case>(&mut agg, "interleavings", &check);
     run_part(
         &mut agg,
